@@ -82,6 +82,10 @@ fn main() {
             drop(out);
             record_lang::dot_cases(&args[2..])
         }
+        "dot-big" => {
+            drop(out);
+            record_lang::dot_big(&args[2..])
+        }
         "fuzz" => {
             drop(out);
             fuzz::run(&args[2..])
